@@ -414,6 +414,12 @@ SECTIONS = {
     "swap-barrier": [G("CX", [0, 1]), G("Barrier", []), G("CX", [1, 0]), G("CX", [0, 1])],
     "swap-mcx1": [G("MCX", [0, 1], n=1), G("MCX", [1, 0], n=1), G("MCX", [0, 1], n=1)],
     "swap-mctrl": [G("MCtrl", [0, 1], n=1, g="X"), G("CX", [1, 0]), G("MCtrl", [0, 1], n=1, g="X")],
+    # permutations whose RAW section expressions are not bare symbols (they become a relabelling only after
+    # simplification): a swap with cancelling X gates interleaved, a swap whose middle CX is split into two
+    # Toffolis on q2 / not q2
+    "swap-x-interleaved": [G("CX", [1, 0]), G("X", [0]), G("CX", [0, 1]), G("X", [1]), G("CX", [1, 0]), G("X", [0])],
+    "swap-x-interleaved2": [G("X", [1]), G("CX", [0, 1]), G("X", [0]), G("CX", [1, 0]), G("X", [1]), G("CX", [0, 1]), G("X", [0]), G("X", [1])],
+    "swap-split-toffoli": [G("CX", [0, 1]), G("CCX", [2, 1, 0]), G("X", [2]), G("CCX", [2, 1, 0]), G("X", [2]), G("CX", [0, 1])],
     # computing into occupied qubits
     "ccx": [G("CCX", [0, 1, 2])], "mcx": [G("MCX", [2, 0, 1], n=2)], "cx": [G("CX", [0, 1])],
     "cx-chain": [G("CX", [0, 1]), G("CX", [1, 2]), G("CX", [2, 0])],
